@@ -338,6 +338,7 @@ class Program:
         self.slot_targets: Dict[Tuple[str, str], Set[FuncInfo]] = {}
         self.param_targets: Dict[Tuple[str, str], Set[FuncInfo]] = {}
         self.stats: Dict[str, int] = {}
+        self.shadowed: List[Tuple[FuncInfo, FuncInfo]] = []  # (dead earlier definition, the one that replaces it)
         self._load()
         self._link()
         self._fields()
@@ -441,11 +442,21 @@ class Program:
             if isinstance(stmt, (ast.FunctionDef, ast.AsyncFunctionDef)):
                 func = self._make_func(module, info, stmt)
                 # property setters share the name; keep the getter as primary
-                if stmt.name in info.methods and func.kind != "property":
+                accessor = any(isinstance(d, ast.Attribute) and d.attr in ("setter", "deleter") for d in stmt.decorator_list)
+                if stmt.name in info.methods and func.kind != "property" and accessor:
                     info.methods[stmt.name + "#setter"] = func
                     func.qualname += "#setter"
                     self.functions[func.qualname] = func
                 else:
+                    # a second plain definition of the same name replaces the first, as it does when the class
+                    # body runs: the earlier one is dead code and is analysed as such (never a call target)
+                    earlier = info.methods.get(stmt.name)
+                    if earlier is not None and not accessor:
+                        earlier.qualname += "#shadowed"
+                        self.functions[earlier.qualname] = earlier
+                        info.methods[stmt.name + "#shadowed"] = earlier
+                        self.shadowed.append((earlier, func))
+                        self.functions[func.qualname] = func
                     info.methods[stmt.name] = func
             elif isinstance(stmt, ast.Assign):
                 for target in stmt.targets:
